@@ -23,8 +23,8 @@ Restricted statements (never weakened silently):
 * `C07_dict_children_partial` needs pairwise distinct `str(k)` of the data keys; without it the
   statement is false (`C07_dict_children_full_fails`, finding N7);
 * "every leaf records the offending value itself" (`C07_leaf_actual`, `C07_cond_actual`,
-  `C07_delegate_actual`) has three documented exceptions, each stated as a theorem: enums record the
-  converted value (`C07_enum_actual_is_converted`), patterns the unwrapped pattern text
+  `C07_delegate_actual`, `C07_enum_actual`) has two documented exceptions, each stated as a theorem:
+  patterns record the unwrapped pattern text
   (`C07_pattern_actual_is_unwrapped`), and the unknown-tag leaf of a tagged union records the tag value
   (`C07_tagged_tag_unknown`).
 Most statements need none of the C03 hypotheses (the loops involved never call the fast pass); those
@@ -674,11 +674,13 @@ theorem C07_delegate_inner (sub : String) (inner : Conv) (v : Val)
     (hx : tryC E inner v = .interrupt) : colC E (.delegate sub inner) v = colC E inner v := by
   simp only [colC, hx]
 
-/-- **Documented exception 1 (enums).**  The not-a-member leaf records the CONVERTED value `x` (the
-result of the enum's value-type conversion), not the input. -/
-theorem C07_enum_actual_is_converted (name : String) (members : List Val) (inner : Conv) (v x : Val) {t : Err}
+/-- **Enums.**  The not-a-member leaf records the INPUT `v`, not the value `x` after the conversion to the
+members' type.  (Before the repair D29 it recorded `x`: `from_data(2, E)` for an enum with float members
+said "instead got `2.0` of type `float`"; this theorem then was the documented exception
+`C07_enum_actual_is_converted`.) -/
+theorem C07_enum_actual (name : String) (members : List Val) (inner : Conv) (v x : Val) {t : Err}
     (hx : tryC E inner v = .ok x) (h : colC E (.enum name members inner) v = .ok (some t)) :
-    t = .wrongType (expected E (.enum name members inner) false) x none none := by
+    t = .wrongType (expected E (.enum name members inner) false) v none none := by
   simp only [colC, hx] at h
   split at h <;> cases h; rfl
 
@@ -871,9 +873,9 @@ example : ∃ cause, (Err.condFailed "an int satisfying p" (.int 1) "p" (some "Z
       (CondExpr.leaf (.user "p" 0) "p").name cause :=
   C07_cond_actual (E := extRaising) exInt (.leaf (.user "p" 0) "p") .satisfying (.int 1) (.int 1) rfl (by rfl)
 
-/-- exception 1 is real: `Enum` over floats on the int `2` records `2.0`, not `2` -/
+/-- `Enum` over floats on the int `2` records the input `2` (before D29: `2.0`) -/
 example : colC extRaising (.enum "Color" [.float (.fin 1 0)] exFloat) (.int 2) =
-    .ok (some (.wrongType "member of enum 'Color' (?)" (.float (.fin 2 0)) none none)) := by
+    .ok (some (.wrongType "member of enum 'Color' (?)" (.int 2) none none)) := by
   with_unfolding_all rfl
 
 /-- exception 2 is real: a compiled pattern input is recorded as its pattern text -/
@@ -924,9 +926,9 @@ example : ∃ cause, Err.wrongType "an int" (.int 1) (some "ValueError") none =
   C07_delegate_actual (E := extRaising) "MyInt" exInt (.int 1) (.int 1) rfl (by rfl)
 example : colC extRaising (.delegate "MyInt" exInt) (.str "a") = colC extRaising exInt (.str "a") :=
   C07_delegate_inner _ _ _ (by rfl)
-example : Err.wrongType "member of enum 'Color' (?)" (.float (.fin 2 0)) none none =
-    .wrongType (expected extRaising (.enum "Color" [.float (.fin 1 0)] exFloat) false) (.float (.fin 2 0)) none none :=
-  C07_enum_actual_is_converted (E := extRaising) "Color" [.float (.fin 1 0)] exFloat (.int 2) (.float (.fin 2 0))
+example : Err.wrongType "member of enum 'Color' (?)" (.int 2) none none =
+    .wrongType (expected extRaising (.enum "Color" [.float (.fin 1 0)] exFloat) false) (.int 2) none none :=
+  C07_enum_actual (E := extRaising) "Color" [.float (.fin 1 0)] exFloat (.int 2) (.float (.fin 2 0))
     (by rfl) (by with_unfolding_all rfl)
 example : ∃ cause, Err.wrongType "a string regex pattern" (.str "a+") (some "ValueError") none =
     .wrongType (expected extRaising (.pattern false exStr) false) (patV (.opaque "Pattern" "a+")) cause none :=
@@ -962,7 +964,7 @@ example : ∃ cause, Err.wrongType "a string regex pattern" (.str "a+") (some "V
 #print axioms C07_cond_inner
 #print axioms C07_delegate_actual
 #print axioms C07_delegate_inner
-#print axioms C07_enum_actual_is_converted
+#print axioms C07_enum_actual
 #print axioms C07_pattern_actual_is_unwrapped
 #print axioms C07_dict_children_partial
 #print axioms C07_dict_children_full_fails
